@@ -16,7 +16,7 @@ Classes == {"der_ok", "der_bad", "der_len_long_form", "der_indefinite", "der_lea
             "der_wrong_tag", "der_empty_int", "der_33_byte", "der_value_zero", "der_value_ge_n", "der_short_input",
             "build_roundtrip", "build_high_bit", "build_short",
             "cmp_ok", "cmp_bad_len", "cmp_zero", "cmp_ge_n", "cmpv_ok", "spki_prefix_sweep",
-            "bip_ok", "bip_len_edge", "bip_bad", "bip_but_not_der", "bip_neg", "bip_padding",
+            "bip_ok", "bip_len_edge", "bip_bad", "bip_but_not_der", "bip_neg", "bip_len_wide", "bip_padding",
             "spki_ok_unc", "spki_ok_cmp", "spki_unused_bits", "spki_unused_bits_zero_pad", "spki_bad_oid", "spki_trailing",
             "spki_bad_point", "spki_identity", "spki_params", "spki_bad", "random_bytes", "model_sig_shape", "model_spki_shape", "enc_stable"}
 
@@ -66,6 +66,7 @@ Verdict(ev) ==
             (IF want THEN {"bip_ok"} ELSE {"bip_bad"}) \cup (IF Len(b) \in {8, 9, 73, 74} THEN {"bip_len_edge"} ELSE {})
             \cup (IF want /\ ParseDerSig(SubSeq(b, 1, Len(b) - 1))[1] = "err" THEN {"bip_but_not_der"} ELSE {})
             \cup (IF ~want /\ Len(b) >= 9 /\ b[5] >= 128 THEN {"bip_neg"} ELSE {})
+            \cup (IF Len(b) >= 9 /\ (b[2] >= 128 \/ b[4] >= 128 \/ b[Len(b)] >= 240) THEN {"bip_len_wide"} ELSE {})
             \cup (IF ~want /\ Len(b) >= 9 /\ b[4] > 1 /\ b[5] = 0 /\ b[6] < 128 THEN {"bip_padding"} ELSE {}) >>
     [] ev.ev = "sig.Stable" -> << ev.now = ev.then, {"enc_stable"} >>       \* an encoding handed out earlier is untouched by later encoding calls
     [] ev.ev = "spki.Parse" ->
